@@ -77,6 +77,8 @@ def parseExpr : Nat → Sexp → Option Expr
     | .list [.atom "mul", a, b] => do some (.mul (← parseExpr fuel a) (← parseExpr fuel b))
     | .list [.atom "sum", v, e] => do some (.sum (← v.asNat?) (← parseExpr fuel e))
     | .list [.atom "prod", v, e] => do some (.prod (← v.asNat?) (← parseExpr fuel e))
+    | .list [.atom "scat", i, k, t, e] => do
+        some (.scat (← i.asNat?) (← k.asNat?) (← t.asNats?) (← parseExpr fuel e))
     | .list [.atom "cat", v, ps] => do
         some (.cat (← v.asNat?) (← (← ps.asList?).mapM parsePair))
     | _ => none
@@ -96,6 +98,7 @@ def wfExpr (sz : Nat → Nat) (ls : List LeafD) : Expr → Bool
   | .mul a b => wfExpr sz ls a && wfExpr sz ls b
   | .sum _ e => wfExpr sz ls e
   | .prod _ e => wfExpr sz ls e
+  | .scat i k t e => wfExpr sz ls e && sz k ≤ t.length && (t.take (sz k)).all (· < sz i)
   | .cat v parts =>
     parts.all (fun p => match ls.find? (·.id == p.1) with
       | none => false
